@@ -47,6 +47,38 @@ def replay_framing(inputs, obl):
         if [(g[0], g[1]) for g in got] != list(zip(ids, msgs)):
             problems.append(f"cuts {cuts}: frames delivered {got!r}")
             break
+    # large frames (beyond the reader's 64 KiB buffer limit), pipelined with small ones, several fragmentations
+    if not problems:
+        big_msgs = ['x' * 70000, 'tail', list(range(40000)), 'y' * 200000, {'k': 1}]
+        big_ids = [uuid.uuid4() for _ in big_msgs]
+        big = b''.join(encode_message(i, m) for i, m in zip(big_ids, big_msgs))
+
+        async def run_big(step):
+            rd = asyncio.StreamReader(limit=2 ** 16)
+            out = []
+
+            async def feed():
+                for a in range(0, len(big), step):
+                    rd.feed_data(big[a:a + step])
+                    if step < 4096:
+                        continue
+                    await asyncio.sleep(0)
+                rd.feed_eof()
+            t = asyncio.ensure_future(feed())
+            for _ in big_msgs:
+                out.append(await stream_recv_msg(rd))
+            await t
+            return out
+        for step in (len(big), 65536, 65537, 70020, 100000, 1000):
+            try:
+                got = asyncio.run(run_big(step))
+            except Exception as e:
+                problems.append(f"large frames fed in pieces of {step} bytes: raised {type(e).__name__}: {str(e)[:100]}")
+                break
+            if [(g[0], g[1]) for g in got] != list(zip(big_ids, big_msgs)):
+                bad = [k for k, (g, w) in enumerate(zip(got, zip(big_ids, big_msgs))) if (g[0], g[1]) != w]
+                problems.append(f"large frames fed in pieces of {step} bytes: frame(s) {bad} not delivered intact")
+                break
     try:
         e = encode_message(ids[0], 'hello')
         if e[:16] != ids[0].bytes or int.from_bytes(e[16:20], 'big') != len(e) - 20 or pickle.loads(e[20:]) != 'hello':
